@@ -228,7 +228,7 @@ func (x *Exec) setSV(name, sortName string, t Term) {
 		ref := "*"
 		if p := "(store " + cur + " "; strings.HasPrefix(t, p) {
 			if r, ok := firstSExpr(t[len(p):]); ok {
-				ref = simplifyRef(r)
+				ref = x.simplifyRef(r)
 			}
 		}
 		if x.refWrites[name] == nil {
